@@ -451,7 +451,7 @@ theorem merged_cases {lo hi : Nat} {fl : FL} (h : FLInv lo hi fl) {u s : Nat}
     (hr : (⟨u, s, false⟩ : Run) ∈ fl.runs) {ns es : Nat}
     (hL : ns = u ∨ ∃ l ∈ fl.runs, l.free = true ∧ l.start = ns ∧ l.start + l.size = u)
     (hR : es = 0 ∨ ∃ r ∈ fl.runs, r.free = true ∧ r.start = u + s ∧ r.size = es) :
-    ns ≤ u ∧ ∀ x ∈ fl.runs, x.start = u ∨ (x.free = true ∧ ns ≤ x.start ∧ x.start < u + s + es) ∨
+    ns ≤ u ∧ ∀ x ∈ fl.runs, x.start = u ∨ (x.free = true ∧ ns ≤ x.start ∧ x.start < u + s + es ∧ x.start + x.size ≤ u + s + es) ∨
       (x.start + x.size ≤ ns ∨ u + s + es ≤ x.start) := by
   have hs := h.pos _ hr
   dsimp only at hs
@@ -465,23 +465,25 @@ theorem merged_cases {lo hi : Nat} {fl : FL} (h : FLInv lo hi fl) {u s : Nat}
   rcases h.eq_or_disj hx hr with e | d1
   · exact Or.inl (by rw [e])
   unfold Disj at d1; dsimp only at d1
-  have hl' : ns = u ∨ (x.free = true ∧ ns ≤ x.start ∧ x.start < u + s + es) ∨
+  have hl' : ns = u ∨ (x.free = true ∧ ns ≤ x.start ∧ x.start < u + s + es ∧ x.start + x.size ≤ u + s + es) ∨
       (x.start + x.size ≤ ns ∨ u ≤ x.start) := by
     rcases hL with e | ⟨l, hl, hlf, hls, hle⟩
     · exact Or.inl e
     · rcases h.eq_or_disj hx hl with e | d
-      · refine Or.inr (Or.inl ⟨e ▸ hlf, ?_, ?_⟩)
+      · refine Or.inr (Or.inl ⟨e ▸ hlf, ?_, ?_, ?_⟩)
         · rw [e, hls]; exact Nat.le_refl _
         · rw [e]; have := h.pos l hl; omega
+        · rw [e]; omega
       · unfold Disj at d; exact Or.inr (Or.inr (by omega))
-  have hr' : es = 0 ∨ (x.free = true ∧ ns ≤ x.start ∧ x.start < u + s + es) ∨
+  have hr' : es = 0 ∨ (x.free = true ∧ ns ≤ x.start ∧ x.start < u + s + es ∧ x.start + x.size ≤ u + s + es) ∨
       (x.start + x.size ≤ u + s ∨ u + s + es ≤ x.start) := by
     rcases hR with e | ⟨r, hrr, hrf, hrs, hre⟩
     · exact Or.inl e
     · rcases h.eq_or_disj hx hrr with e | d
-      · refine Or.inr (Or.inl ⟨e ▸ hrf, ?_, ?_⟩)
+      · refine Or.inr (Or.inl ⟨e ▸ hrf, ?_, ?_, ?_⟩)
         · rw [e, hrs]; omega
         · rw [e, hrs]; have := h.pos r hrr; omega
+        · rw [e, hrs, hre]; exact Nat.le_refl _
       · unfold Disj at d; exact Or.inr (Or.inr (by omega))
   rcases hl' with e1 | m | d2
   · rcases hr' with e2 | m | d3
@@ -603,5 +605,84 @@ theorem freeRun_spec {lo hi : Nat} {fl : FL} (h : FLInv lo hi fl) {u s : Nat}
       rcases (hmem x).1 hx with ⟨hx, _⟩ | rfl
       · exact h.free_in x hx hxf
       · dsimp only; omega
+
+/-! ## Coverage and maximal coalescing (for the exactness of a failed allocation) -/
+
+/-- The runs cover `[lo, hi)` and no two free runs are adjacent. -/
+structure FLFull (lo hi : Nat) (fl : FL) : Prop where
+  cover : ∀ x, lo ≤ x → x < hi → ∃ r ∈ fl.runs, r.start ≤ x ∧ x < r.start + r.size
+  maximal : ∀ a ∈ fl.runs, ∀ b ∈ fl.runs, a.free = true → b.free = true → a.start + a.size ≠ b.start
+
+theorem alloc_full {lo hi : Nat} {fl : FL} (h : FLInv lo hi fl) (hF : FLFull lo hi fl) {n : Nat} (hn : 1 ≤ n)
+    {u : Nat} (ha : (fl.alloc n).1 = some u) : FLFull lo hi (fl.alloc n).2 := by
+  obtain ⟨s, hfree, hks, _, hmem⟩ := alloc_spec h hn ha
+  have hspos := h.pos _ hfree
+  dsimp only at hspos
+  refine ⟨?_, ?_⟩
+  · intro x hx1 hx2
+    obtain ⟨r, hr, hr1, hr2⟩ := hF.cover x hx1 hx2
+    by_cases hru : r.start = u
+    · have : r = ⟨u, s, true⟩ := h.eq_of_start hr hfree hru
+      subst this
+      dsimp only at hr1 hr2
+      by_cases hxn : x < u + n
+      · exact ⟨⟨u, n, false⟩, (hmem _).2 (Or.inr (Or.inl rfl)), hr1, hxn⟩
+      · exact ⟨⟨u + n, s - n, true⟩, (hmem _).2 (Or.inr (Or.inr ⟨by omega, rfl⟩)), by dsimp only; omega,
+          by dsimp only; omega⟩
+    · exact ⟨r, (hmem r).2 (Or.inl ⟨hr, hru⟩), hr1, hr2⟩
+  · intro a ha' b hb' haf hbf hadj
+    rcases (hmem a).1 ha' with ⟨ha0, hau⟩ | rfl | ⟨hlt, rfl⟩
+    · rcases (hmem b).1 hb' with ⟨hb0, hbu⟩ | rfl | ⟨hlt, rfl⟩
+      · exact hF.maximal a ha0 b hb0 haf hbf hadj
+      · cases hbf
+      · -- an old free run cannot end inside the run that was split
+        dsimp only at hadj
+        rcases h.eq_or_disj ha0 hfree with e | d
+        · rw [e] at hau; exact hau rfl
+        · have := h.pos a ha0; unfold Disj at d; dsimp only at d; omega
+    · cases haf
+    · rcases (hmem b).1 hb' with ⟨hb0, hbu⟩ | rfl | ⟨_, rfl⟩
+      · -- the remainder ends where the split run ended
+        dsimp only at hadj
+        exact hF.maximal _ hfree b hb0 rfl hbf (by dsimp only; omega)
+      · cases hbf
+      · dsimp only at hadj; omega
+
+theorem freeRun_full {lo hi : Nat} {fl : FL} (h : FLInv lo hi fl) (hF : FLFull lo hi fl) {u s : Nat}
+    (hr : (⟨u, s, false⟩ : Run) ∈ fl.runs) : FLFull lo hi (fl.freeRun u).2 := by
+  obtain ⟨ns, es, hL, hR, heq⟩ := freeRun_eq_strong h hr
+  obtain ⟨hns, hc⟩ := merged_cases h hr (hL.imp (·.1) id) (hR.imp (·.1) id)
+  have hs := h.pos _ hr
+  dsimp only at hs
+  have hne : ns + (u + s + es - ns) = u + s + es := by omega
+  rw [heq]
+  show FLFull lo hi (fl.merged ns (u + s + es - ns))
+  refine ⟨?_, ?_⟩
+  · intro x hx1 hx2
+    by_cases hin : ns ≤ x ∧ x < u + s + es
+    · exact ⟨_, mem_merged.2 (Or.inr rfl), hin.1, by dsimp only; omega⟩
+    · obtain ⟨r, hrm, hr1, hr2⟩ := hF.cover x hx1 hx2
+      refine ⟨r, mem_merged.2 (Or.inl ⟨hrm, ?_⟩), hr1, hr2⟩
+      rw [hne]
+      rcases hc r hrm with e | ⟨_, f1, f2, f3⟩ | d
+      · have : r = ⟨u, s, false⟩ := h.eq_of_start hrm hr e
+        subst this; dsimp only at hr1 hr2; omega
+      · omega
+      · have := h.pos r hrm; omega
+  · intro a ha b hb haf hbf hadj
+    rcases mem_merged.1 ha with ⟨ha0, hao⟩ | rfl
+    · rcases mem_merged.1 hb with ⟨hb0, hbo⟩ | rfl
+      · exact hF.maximal a ha0 b hb0 haf hbf hadj
+      · -- an old free run ends where the merged run starts
+        dsimp only at hadj
+        rcases hL with ⟨e, hno⟩ | ⟨l, hl, hlf, hls, hle⟩
+        · exact hno a ha0 haf (by omega)
+        · exact hF.maximal a ha0 l hl haf hlf (by omega)
+    · rcases mem_merged.1 hb with ⟨hb0, hbo⟩ | rfl
+      · dsimp only at hadj
+        rcases hR with ⟨e, hno⟩ | ⟨r, hrr, hrf, hrs, hre⟩
+        · exact hno b hb0 hbf (by omega)
+        · exact hF.maximal r hrr b hb0 hrf hbf (by omega)
+      · dsimp only at hadj; omega
 
 end Mmtk.Map32
